@@ -284,10 +284,55 @@ def functions():
         ix = choices[int(r.integers(len(choices)))]
         return [P(r, sh)], lambda a: a[ix], lambda i: i[ix], {"index": repr(ix)}
     one("getitem", getitem)
+
+    def getitem_general(r):
+        # any index tuple numpy accepts: integers, stepped slices, newaxis, ellipsis, integer arrays and boolean masks mixed
+        sh = shapes(r, 1)
+        for _ in range(20):
+            ix = random_key(r, sh, bad=0.)
+            if any(isinstance(it, numpy.ndarray) for it in ix):
+                break
+        return [P(r, sh)], lambda a: a[ix], lambda i: i[ix], {"index": repr(ix)}
+    one("getitem_general", getitem_general)
     one("iteration", lambda r: (lambda sh: ([P(r, sh)], lambda a: list(a), lambda i: list(i), {}))(shapes(r, 1)))
     one("ravel", lambda r: (lambda sh: ([P(r, sh)], lambda a: a.ravel(), lambda i: i.ravel(), {}))(shapes(r)))
     one("flatten", lambda r: (lambda sh: ([P(r, sh)], lambda a: a.flatten(), lambda i: i.flatten(), {}))(shapes(r)))
     return F
+
+
+SLICE_POOL = [slice(None), slice(None, None, -1), slice(1, None), slice(None, -1), slice(None, None, 2), slice(-1, None, -2),
+              slice(2, 1), slice(0, 1)]
+
+
+def random_key(grng, sh, bad=.1):
+    """a random general index tuple for an operand of shape `sh`: integers, slices with steps, newaxis, one ellipsis, integer
+    arrays (0-d to 2-d, also empty) and boolean masks over one or two axes; with probability ~`bad` an entry is out of range"""
+    nd = len(sh)
+    items, ax, used_ell = [], 0, False
+    while ax < nd and len(items) < nd + 2:
+        u = grng.random()
+        if u < .08:
+            items.append(None)
+        elif u < .14 and not used_ell:
+            items.append(Ellipsis); used_ell = True
+            ax += int(grng.integers(0, nd - ax + 1))
+        elif u < .30:
+            d = sh[ax]; ax += 1
+            items.append(int(grng.integers(-d, d)) if grng.random() >= bad else int(d + grng.integers(0, 2)))
+        elif u < .50:
+            items.append(SLICE_POOL[int(grng.integers(len(SLICE_POOL)))]); ax += 1
+        elif u < .80:
+            d = sh[ax]; ax += 1
+            ish = [(), (2,), (1,), (2, 1), (1, 2), (3,), (0,)][int(grng.integers(7))]
+            lo, hi = (-d, d) if grng.random() >= bad else (-d - 1, d + 1)
+            items.append(grng.integers(lo, hi, size=ish))
+        else:
+            k = int(grng.integers(1, min(2, nd - ax) + 1))
+            msh = tuple(sh[ax:ax + k]) if grng.random() >= bad else tuple(d + 1 for d in sh[ax:ax + k])
+            items.append(grng.random(size=msh) < .5); ax += k
+        if grng.random() < .15:
+            break
+    return tuple(items)
 
 
 def flatten_results(res):
@@ -540,6 +585,32 @@ def run_model_shapefns(ctx):
             for reps in [[int(x) for x in irng.integers(0, 3, size=sh[ax])], [2], [1] * sh[ax], [0] * sh[ax], [1, 2]]:
                 idx1({"fn": "repeats", "reps": reps, "axis": ax}, lambda a, reps=reps, ax=ax: numpy.repeat(a, reps, axis=ax), sh)
                 reqs[-1]["op"] = "advindexfn"
+
+    # ---- the general index expression: ints, slices with steps, newaxis, ellipsis, integer arrays and boolean masks in
+    #      one tuple (Np/Model/GenIndexFns.lean); numpy's own result on an array of positions is the expectation
+    def gitem_json(it):
+        if it is None:
+            return "newaxis"
+        if it is Ellipsis:
+            return "ellipsis"
+        if isinstance(it, slice):
+            return {"slice": [it.start, it.stop, 1 if it.step is None else it.step]}
+        if isinstance(it, numpy.ndarray) and it.dtype == bool:
+            return {"mask": {"shape": list(it.shape), "data": [bool(x) for x in it.ravel()]}}
+        if isinstance(it, numpy.ndarray):
+            return {"arr": ixj(it)}
+        return {"int": int(it)}
+
+    grng = ctx.rng("model-genindex")
+    for sh in [(4,), (2, 3), (2, 3, 4), (3, 1, 2), (2, 2, 2, 2)]:
+        for _ in range(40 if ctx.quick else 400):
+            items = random_key(grng, sh)
+            if not any(isinstance(it, numpy.ndarray) for it in items):
+                continue
+            key = tuple(items)
+            idx1({"items": [gitem_json(it) for it in items]}, lambda a, key=key: a[key], sh)
+            reqs[-1]["op"] = "genindexfn"
+            ctx.count("model-genindex")
 
     bad = []
     for req, want, ans in zip(reqs, wants, run_driver(reqs)):
